@@ -36,6 +36,7 @@ type hostileFrame struct {
 type c10Case struct {
 	Target  string         `json:"target"` // server | client | client+handler | size
 	Prelude string         `json:"prelude,omitempty"`
+	Pending bool           `json:"pending,omitempty"` // client targets: a channel-returning call is in flight (never answered by the peer itself) while the frames arrive
 	Frames  []hostileFrame `json:"frames,omitempty"`
 	// size cases
 	Limit int    `json:"limit,omitempty"`
@@ -95,7 +96,14 @@ func genHostileFrame(t *rapid.T, i int) hostileFrame {
 	}
 	s := func(x string) *string { return &x }
 	var text string
-	switch rapid.IntRange(0, 11).Draw(t, l+"_kind") {
+	switch rapid.IntRange(0, 13).Draw(t, l+"_kind") {
+	case 12, 13: // a response aimed at one of the first request ids, i.e. possibly at a call that is in flight
+		small := "%PENDING_ID%" // replaced, when the frame is injected, by the id of the client's unanswered channel-returning call
+		extra := `"result":` + rapid.SampledFrom(c10Vals).Draw(t, l+"_res")
+		if rapid.IntRange(0, 3).Draw(t, l+"_err") == 0 {
+			extra = `"error":` + rapid.SampledFrom([]string{`{"code":1,"message":"x"}`, `{"code":"x"}`, "null", "5", `"str"`}).Draw(t, l+"_errv")
+		}
+		text = obj(&small, nil, nil, extra)
 	case 0:
 		text = obj(s("77"), s("T.Add"), s("[1,2]"), "")
 	case 1:
@@ -148,6 +156,8 @@ type fakeServer struct {
 	mu   sync.Mutex
 	conn *websocket.Conn
 	up   websocket.Upgrader
+	// id of the latest request the fake peer leaves unanswered (Tok.SubInt)
+	pendingID string
 }
 
 func newFakeServer() *fakeServer {
@@ -179,6 +189,11 @@ func newFakeServer() *fakeServer {
 				resp = fmt.Sprintf(`{"jsonrpc":"2.0","id":%s,"result":{"tok":%s,"echo":%s}}`, req.ID, mustJSON(tok), mustJSON(expectedEcho(tok)))
 			case "Tok.Sub":
 				resp = fmt.Sprintf(`{"jsonrpc":"2.0","id":%s,"result":1}`, req.ID)
+			case "Tok.SubInt":
+				f.mu.Lock()
+				f.pendingID = string(req.ID)
+				f.mu.Unlock()
+				continue
 			default:
 				continue
 			}
@@ -200,7 +215,11 @@ func (f *fakeServer) inject(fr hostileFrame) error {
 	if fr.Binary {
 		mt = websocket.BinaryMessage
 	}
-	return f.conn.WriteMessage(mt, []byte(fr.Text))
+	id := f.pendingID
+	if id == "" {
+		id = "0"
+	}
+	return f.conn.WriteMessage(mt, []byte(strings.ReplaceAll(fr.Text, "%PENDING_ID%", id)))
 }
 
 func (e *c10Env) getServer() (*hostProc, error) {
@@ -345,6 +364,11 @@ func (e *c10Env) runClient(c c10Case) *Violation {
 			return violf(crashKey(c), "the process hosting the client died: %v", ch.proc.Stderr(12))
 		}
 	}
+	if c.Pending {
+		ch.proc.Send("subpend " + tok + "-pend")
+		ch.proc.expect("SUBPEND "+tok+"-pend", time.Second)
+		time.Sleep(2 * time.Millisecond)
+	}
 	for _, f := range c.Frames {
 		if err := ch.fake.inject(f); err != nil {
 			break
@@ -450,7 +474,14 @@ func c10NT(c c10Case) (bool, []string) {
 		return true, cl
 	}
 	nt := false
+	if c.Pending {
+		cl = append(cl, "channel_call_in_flight")
+	}
 	for _, f := range c.Frames {
+		if strings.Contains(f.Text, "%PENDING_ID%") && c.Pending {
+			cl = append(cl, "answers_pending_channel_call")
+			nt = true
+		}
 		var r struct {
 			Method string          `json:"method"`
 			Params json.RawMessage `json:"params"`
@@ -496,7 +527,7 @@ func TestC10(t *testing.T) {
 	rec := NewRec("C10", c10Rule)
 	defer rec.Finish(t)
 	rec.EnableJournal()
-	rec.RequireClass("builtin_noncanonical", "unsolicited_response", "target_server", "target_client", "target_client+handler", "target_size", "binary_frame", "with_prelude", "delta_+1", "delta_+0", "delta_-1")
+	rec.RequireClass("answers_pending_channel_call", "builtin_noncanonical", "unsolicited_response", "target_server", "target_client", "target_client+handler", "target_size", "binary_frame", "with_prelude", "delta_+1", "delta_+0", "delta_-1")
 	known := rec.IsKnown("builtin-params-crash")
 
 	run := func(ft failer, c c10Case) {
@@ -578,6 +609,12 @@ func TestC10(t *testing.T) {
 				}
 			}
 		}
+		// a channel-returning call in flight, answered by the peer with something that is not a channel id
+		for _, res := range c10Vals {
+			for _, target := range []string{"client", "client+handler"} {
+				run(t, c10Case{Target: target, Pending: true, Frames: []hostileFrame{{Text: `{"jsonrpc":"2.0","id":%PENDING_ID%,"result":` + res + `}`}}})
+			}
+		}
 		for _, L := range []int{64, 100, 1000, 4096, 65536} {
 			for _, d := range []int{-1, 0, 1} {
 				for _, batch := range []bool{false, true} {
@@ -599,6 +636,7 @@ func TestC10(t *testing.T) {
 			if rapid.Bool().Draw(rt, "prelude") {
 				c.Prelude = "p"
 			}
+			c.Pending = c.Target != "server" && rapid.Bool().Draw(rt, "pending")
 			n := rapid.IntRange(1, 8).Draw(rt, "nframes")
 			for i := 0; i < n; i++ {
 				c.Frames = append(c.Frames, genHostileFrame(rt, i))
